@@ -81,7 +81,8 @@ class _K:
 SELECTORS = {'fa': ('fa', 'pqr'), 'sub.fb': ('m1.sub.fb', 'pq'), 'm1.sub.fb': ('m1.sub.fb', 'pq'),
              'm2.fb': ('m2.fb', 'pq'), 'K': ('m1.K', 'pq'), 'm1.K': ('m1.K', 'pq')}
 SCOPES = ['', '', 's', 's/t', 'S', 'a/b/c']
-MACROS = ['M', 'mac', 'x_1']
+# macro names equal to the statement keywords are legal ("from = 1" is a macro definition)
+MACROS = ['M', 'mac', 'x_1', 'from', 'include', 'import']
 IMPORTS = [('import', 'math', None), ('import', 'os.path', None), ('import', 'json', 'js'),
            ('import', 'collections.abc', 'cabc'), ('from', 'os.path', None),
            ('from', 'collections.abc', None), ('from', 'xml.dom', 'xdom'),
